@@ -907,4 +907,72 @@ def _flat20(t):
     return out
 
 
-RULES = [('C20.a', rule_a), ('C20.b', c06a), ('C20.c', c06b), ('C20.d', rule_d), ('C20.e', rule_e), ('C20.f', rule_f), ('C20.g', rule_g), ('C20.e+C20.g', rule_h), ('C15.d', rule_coroutines), ('C20.i', rule_i), ('C20.j', rule_j), ('C20.k', rule_k), ('C06.e', rule_queue_sources), ('C20.l', rule_empty_filter)]
+
+def rule_handler_per_connection(ctx):
+    """C20.m  The wrapped handler factory is a factory: the core calls it once per connection and each connection owns
+    its handler, so what `reactivex_handler_factory(f)` / `rx_handler_factory(f)` return must build a new adapter
+    around a new delegate - `Adapter(f())` evaluated inside the returned function - on every call, not hand out an
+    adapter (or a delegate) created when the wrapper was made."""
+    from .c19 import _creates_instance
+    rep = ctx.report
+    repo = ctx.repo
+    n = 0
+    for modname in ('rsocket.reactivex.reactivex_handler_adapter', 'rsocket.rx_support.rx_handler_adapter'):
+        m = repo.module(modname)
+        if m is None:
+            raise AnalysisError('C20.m: %s vanished' % modname)
+        for name, lst in m.functions.items():
+            f = lst[-1]
+            if not name.endswith('handler_factory'):
+                continue
+            n += 1
+            param = f.params()[0]
+            inner = [x for x in f.node.body if isinstance(x, (ast.FunctionDef, ast.AsyncFunctionDef))]
+            from ..astutil import returned_exprs
+            rets = list(returned_exprs(f.node))
+            ok, detail = True, ''
+            target = None
+            for r in rets:
+                if isinstance(r, ast.Name):
+                    target = next((x for x in inner if x.name == r.id), None)
+                elif isinstance(r, ast.Lambda):
+                    target = r
+            if target is None:
+                ok, detail = False, 'the wrapper does not return a function defined in it'
+            else:
+                class _Shim:
+                    pass
+                shim = _Shim()
+                shim.node = target if not isinstance(target, ast.Lambda) else ast.FunctionDef(
+                    name='<lambda>', args=target.args, body=[ast.Return(value=target.body)], decorator_list=[])
+                shim.name = getattr(target, 'name', '<lambda>')
+                shim.module = m
+                inner_rets = list(returned_exprs(shim.node))
+                if not inner_rets:
+                    ok, detail = False, 'the returned function returns nothing'
+                for r in inner_rets:
+                    good, why = _creates_instance(repo, m, shim, r)
+                    if not good:
+                        ok, detail = False, ('every call returns %s: %s - all connections share one adapter and one '
+                                             'delegate' % (ast.unparse(r), why))
+                        continue
+                    # the delegate is built in the call too
+                    e = r
+                    if isinstance(e, ast.Name):
+                        e = next((a.value for a in walk_local(shim.node) if isinstance(a, ast.Assign) and any(
+                            isinstance(t, ast.Name) and t.id == e.id for t in a.targets)), e)
+                    made = [c for c in ast.walk(e) if isinstance(c, ast.Call) and isinstance(c.func, ast.Name) and
+                            c.func.id == param]
+                    local_made = [a for a in walk_local(shim.node) if isinstance(a, ast.Assign) and
+                                  isinstance(a.value, ast.Call) and isinstance(a.value.func, ast.Name) and
+                                  a.value.func.id == param]
+                    if not made and not local_made:
+                        ok, detail = False, ('the adapter is built around a delegate that is not created by calling %s() '
+                                             'in the same call: connections share one delegate' % param)
+            rep.add('C20.m', '%s / a new adapter around a new delegate per call' % name, f, ok,
+                    detail or 'the returned function evaluates Adapter(%s()) on every call' % param)
+    rep.require('C20.m', 'handler factory wrappers', n, 2)
+
+
+
+RULES = [('C20.a', rule_a), ('C20.b', c06a), ('C20.c', c06b), ('C20.d', rule_d), ('C20.e', rule_e), ('C20.f', rule_f), ('C20.g', rule_g), ('C20.e+C20.g', rule_h), ('C15.d', rule_coroutines), ('C20.i', rule_i), ('C20.j', rule_j), ('C20.k', rule_k), ('C06.e', rule_queue_sources), ('C20.l', rule_empty_filter), ('C20.m', rule_handler_per_connection)]
